@@ -15,7 +15,7 @@ REPS = {   # class -> list of (yaml text for the value of key k, literal text or
     "bracket": [(q("[a,b]"), "[a,b]")], "jsonObj": [(q('{"a":1}'), None)], "mapLit": [(q("map[a:b]"), "map[a:b]")],
     "empty": [(q(""), None)], "hash": [(q("#{1+1}"), None)],
     "intSmall": [("7", None), ("0", None), ("-3", None)], "intBig": [("9007199254740993", None), ("9223372036854775807", None)],
-    "floatFrac": [("2.5", None), ("0.1", None)], "floatBig": [("1e21", None)], "boolTrue": [("true", None), ("false", None)],
+    "floatFrac": [("2.5", None), ("0.1", None)], "floatBig": [("1e21", None)], "floatTiny": [("0.00001", None)], "boolTrue": [("true", None), ("false", None)],
     "listInt": [("[1, 2]", None)], "listStr": [('["a", "b"]', None)], "listNumStr": [('["1", "02"]', None)], "listEmpty": [("[]", None)],
     "mapFlat": [('{a: 1, b: x}', None)], "mapNested": [('{a: {b: [1, 2]}, c: "1.10"}', None)], "mapEmpty": [("{}", None)],
 }
@@ -60,3 +60,36 @@ def struct_validate_cases(rng, n):
 
 def missing_cases():
     return [dict(kind="missing", tag=t, ftype=ft, required=r) for t in ("value", "prop", "prefix") for ft in FTYPES for r in (True, False)]
+
+
+def random_reps(rng, n):
+    """seeded representatives inside the classes whose round trip is the identity (thorough tier: magnitudes / shapes beyond the fixed ones)"""
+    import string
+    out = []
+    safe = string.ascii_letters + " _-;:/@!?%&|~^"
+    for _ in range(n):
+        k = rng.randrange(6)
+        if k == 0:
+            s = "".join(rng.choice(safe) for _ in range(rng.randint(1, 24))).strip() or "x"
+            if s.lower() in ("true", "false") or s[0] in "'\"[{#" or s.startswith("map["):
+                s = "z" + s
+            out.append(("plain", q(s), None))
+        elif k == 1:
+            out.append(("intSmall", str(rng.randint(-2 ** 53, 2 ** 53)), None))
+        elif k == 2:
+            x = round(rng.uniform(-1e6, 1e6), rng.randint(1, 4))
+            if abs(x) >= 1e-3 and x != int(x):
+                out.append(("floatFrac", repr(x), None))
+        elif k == 3:
+            out.append(("numCanon", q(str(rng.randint(1, 10 ** 9))), None))
+        elif k == 4:
+            items = ["".join(rng.choice(string.ascii_lowercase) for _ in range(rng.randint(1, 6))) for _ in range(rng.randint(1, 5))]
+            out.append(("listStr", json.dumps(items), None))
+        else:
+            keys = rng.sample(["a", "b", "c", "d"], rng.randint(1, 3))
+            out.append(("mapFlat", "{" + ", ".join("%s: %s" % (kk, rng.choice(["x", "yy", "zed"])) for kk in keys) + "}", None))
+    cases = []
+    for cls, y, lit in out:
+        for ft in FTYPES:
+            cases.append(dict(kind="twin", **{"class": cls}, ftype=ft, yaml="k: %s\n" % y, lit=lit or ""))
+    return cases
